@@ -35,6 +35,10 @@ def main(path):
         m = leanside.run_driver([j['op']])[0]
         print('  %s\n  model: %s\n  impl : %s' % (j['op'], m, out))
         return 0 if m == out else 1
+    if isinstance(j.get('shrunk'), dict):
+        print('  (replaying the shrunk case: %d -> %d variants)' % (j['shrunk']['variants_before'], j['shrunk']['variants_after']))
+        print(j['shrunk']['rust'])
+        j = dict(j, enum=j['shrunk']['enum'], op=j['shrunk']['op'], impl=j['shrunk']['impl'])
     if 'enum' in j:
         e = espec_from_json(j['enum'])
         ws = runner.Workspace('replay', features=('derive', 'phf') if e.phf else ('derive',))
